@@ -742,17 +742,17 @@ pub fn c18_script(r: &mut Rng, _index: u64, _tier: Tier) -> (CaseCfg, Vec<Step>)
 /// identifier counter comes round to that identifier while the broker still holds the exchange.
 pub fn c07_flush_fault_script(r: &mut Rng, _index: u64, _tier: Tier) -> (CaseCfg, Vec<Step>) {
     let cfg = CaseCfg { rx: 128, tx: 1024, keepalive: 0, ..CaseCfg::default() };
-    let mut s = vec![connect_with(SpMode::Force(false), AckMode::Hold, vec![])];
     let first = *r.pick(&[1u16, 7, 65534, 65535]);
-    s.push(Step::SetNextPid(first));
+    // (the counter can only be positioned while no handle borrows the session)
+    let mut s = vec![Step::SetNextPid(first), connect_with(SpMode::Force(false), AckMode::Hold, vec![])];
     // the n-th flush of this connection is the one after the PUBLISH (connect() used the first)
     s.push(Step::Io { policy: None, faults: vec![FaultPlan { at: FaultAt::Flush(1), kind: FaultKind::Error(*r.pick(&[ErrKind::ConnectionReset, ErrKind::BrokenPipe, ErrKind::TimedOut])) }] });
     s.push(pubq(1 + r.below(2) as u8, "lost/flush", 1, 4));
     s.push(Step::DropConn);
-    s.push(connect_with(SpMode::Force(true), AckMode::Hold, vec![]));
-    s.push(poll0());
     // the counter has come round
     s.push(Step::SetNextPid(first));
+    s.push(connect_with(SpMode::Force(true), AckMode::Hold, vec![]));
+    s.push(poll0());
     for k in 0..r.range(1, 3) {
         s.push(match r.below(3) {
             0 => pubq(1, "again", 10 + k as u32, 2),
